@@ -25,6 +25,33 @@ def programs(tier):
                 e = {"gate+cancel_inner": [["set", "g"], ["cancel", "SI"]]}.get(env) or ENVS[env]
                 progs.append({"objects": {"g": ["gate"]}, "main": main, "tasks": tasks, "env": e,
                               "label": f"start child={childname} sibling={sib} env={env}"})
+    # the body (or a child) ends with GeneratorExit - an exception like any other for the group
+    for kids in ((), ("wait",), ("cleanup_raise",), ("cp_raise",)):
+        for where in ("body", "child"):
+            children = [child_behaviours(i)[n] for i, n in enumerate(kids)]
+            ge = [["cp"], ["raise", "GX", "genexit"]]
+            if where == "body":
+                p = make_program(children, ge, ENVS["gate"])
+            else:
+                p = make_program(children + [ge], [], ENVS["gate"])
+            p["label"] = f"GeneratorExit raised by the {where}, children={kids}"
+            progs.append(p)
+    # the group's own scope is shielded; a child fails while its sibling is inside a shielded
+    # section (and the host already waits in __aexit__): when the sibling comes out it must be
+    # cancelled like any remaining task
+    for ncp in (1, 2, 3):
+        for fail in ("cp_raise", "raise"):
+            for outer_shield in (True, False):
+                tasks = {"c0": child_behaviours(0)[fail],
+                         "c1": [["scope", "SH1", {"shield": True}, [["cp"]] * ncp], ["wait", "g"],
+                                ["cp"]]}
+                body = ([["set_shield", "G1", True]] if outer_shield else []) + [
+                    ["spawn", "G1", "c0"], ["spawn", "G1", "c1"]]
+                main = [["scope", "S0", {}, [["tg", "G1", body]]], ["cp"]]
+                progs.append({"objects": {"g": ["gate"]}, "main": main, "tasks": tasks,
+                              "env": [["set", "g"]],
+                              "label": f"failing child raise, sibling leaves a {ncp}-checkpoint "
+                                       f"shield, group scope shielded={outer_shield} fail={fail}"})
     return progs
 
 
